@@ -59,7 +59,8 @@ fn parse_as(src: &str, module_name: &str) -> Option<Parsed> {
     .collect();
   let posmap =
     d.loc_list.iter().enumerate().map(|(i, l)| (l.pretty_print_without_file(), i)).collect();
-  let loc_mismatch = d.loc_mismatch.clone();
+  let mut loc_mismatch = d.loc_mismatch.clone();
+  loc_mismatch.extend(d.tparam_mismatch.iter().map(|x| format!("tparam:{x}")));
   let var_positions: Vec<String> = d.var_positions.iter().cloned().collect();
   Some(Parsed { dump: d.out.clone(), render, occ, occ_end, posmap, formatted, loc_mismatch, var_positions })
 }
